@@ -49,3 +49,43 @@ pub fn type_check_sources(
   }
   (checked_sources, global_cx)
 }
+
+/// Verification hooks (only compiled with `--cfg samlang_verif`): thin wrappers that expose the
+/// crate-private type-system kernel to the harness in /verif. They add no behaviour.
+#[cfg(samlang_verif)]
+pub mod verif {
+  use super::type_::{Type, TypeParameterSignature};
+  use samlang_heap::PStr;
+  use std::{collections::HashMap, sync::Arc};
+
+  pub fn contains_placeholder(type_: &Type) -> bool {
+    super::type_system::contains_placeholder(type_)
+  }
+
+  /// `assignability_check(lower, upper).is_none()`
+  pub fn assignable(lower: &Type, upper: &Type) -> bool {
+    super::type_system::assignability_check(lower, upper).is_none()
+  }
+
+  pub fn type_meet(lower: &Type, upper: &Type) -> Option<Type> {
+    super::type_system::type_meet(lower, upper).ok()
+  }
+
+  pub fn subst_type(t: &Type, mapping: &HashMap<PStr, Arc<Type>>) -> Arc<Type> {
+    super::type_system::subst_type(t, mapping)
+  }
+
+  /// `solve_multiple_type_constrains` for one (concrete, generic) pair.
+  pub fn solve_type_constraint(
+    concrete: &Type,
+    generic: &Type,
+    type_parameters: &[PStr],
+  ) -> HashMap<PStr, Arc<Type>> {
+    let sigs =
+      type_parameters.iter().map(|n| TypeParameterSignature { name: *n, bound: None }).collect();
+    super::type_system::solve_multiple_type_constrains(
+      &vec![super::type_system::TypeConstraint { concrete_type: concrete, generic_type: generic }],
+      &sigs,
+    )
+  }
+}
